@@ -83,6 +83,9 @@ def run(tier, seed, replay=None):
         e2e = [c for c in cfgs if all(not l.get("pipe") for l in c["leaves"]) and 2 <= len(c["leaves"]) <= 3]
         rng.shuffle(e2e)
         for i, c in enumerate(e2e[: 48 if tier == "quick" else 600]):
+            # (the end-to-end commands run no inner command of their own: the configuration must say so,
+            #  or the model expects the inner pipeline to be what `$()` / `$[]` see)
+            c = dict(c, leaves=[dict(l, inner=False) for l in c["leaves"]])
             scns.append({"cfg": c, "e2e": ["command", "script", "command-bigrc", "script-bigrc"][i % 4]})
         # flags set by the compiled source itself (the environment holds the opposite at compile time)
         late = list(cfgs)
